@@ -153,8 +153,14 @@ def concrete(m, bs):
     return bytes(m.eval(b8(b), model_completion=True).as_long() for b in bs)
 
 
+REPORTED = {'n': 0}
+
+
 def report(sub, m, conn, upg, ver, p, asc, what, key=None):
     if m is None: return
+    # a handful of replayed violations per worker decide the verdict; further models of the same run are not replayed one by one
+    if REPORTED['n'] >= 4 and sub.violations: return
+    REPORTED['n'] += 1
     ev = lambda t: bool(m.eval(t, model_completion=True))
     hdr = {}
     for k, bs in (('connection', conn), ('upgrade', upg)):
@@ -204,6 +210,9 @@ def witnesses(chk):
                                 ('Upgrade', 'websocket', '12', K), ('Upgrade', 'websocket', '14', K), ('Upgrade', 'websocket', None, K),
                                 ('Upgrade', 'websocket', '13', None), (None, 'websocket', '13', K), ('Upgrade', None, '13', K), ('upgradex', 'websocket', '13', K)]:
         cases.append({'op': 'ws_handshake', 'headers': {'connection': conn, 'upgrade': upg, 'version': ver, 'key': key}})
+    # keys are opaque octets: not base64, not UTF-8, a single octet
+    for kb in ([0xff, 0xfe, 0x41], [0xe9], list(b'not base64 at all!'), [0xc3, 0x28]):
+        cases.append({'op': 'ws_handshake', 'headers': {'connection': 'Upgrade', 'upgrade': 'websocket', 'version': '13', 'key': 'octets', 'key_bytes': kb}})
     res = replay(cases)
     for c, r in zip(cases, res):
         chk.replayed += 1
